@@ -108,3 +108,5 @@ PROPS = {
                        "min(NMAX, ALPHA*r^2) and max(6, ceil(80*Ni/30)); monotonicity is a lemma over those spec functions",
     },
 }
+
+NOT_CLAIMED = {}
